@@ -57,8 +57,11 @@ class Message:
 class World:
     """one simulation run"""
 
-    def __init__(self, size, tape=()):
+    def __init__(self, size, tape=(), nodes=None):
         self.size = size
+        # processor name per rank (ranks on different "nodes" report different names)
+        self.nodes = list(nodes) if nodes else ["simulated-node"] * size
+        assert len(self.nodes) == size
         self.tape = list(tape)
         self.pos = 0
         self.choices = []  # (label, n, chosen)
@@ -207,7 +210,9 @@ def set_world(world):
 
 
 def Get_processor_name():
-    return "simulated-node"
+    if _WORLD is None:
+        return "simulated-node"
+    return _WORLD.nodes[_WORLD.my_rank()]
 
 
 def _lookup_comm(comm_id):
